@@ -59,6 +59,13 @@ def call_closure(eng, clo, e, st):
 
 
 # ---------------------------------------------------------------------------- contract application
+class _HeapState:
+    """a state view with another heap (the entry heap), for evaluating a measure at function entry"""
+
+    def __init__(self, st, heap):
+        self.heap, self.env, self.pc, self.ghost, self.old = heap, st.env, st.pc, st.ghost, st.old
+
+
 def apply_contract(eng, st, c, args, kw, node, arg_exprs=(), kw_exprs=None, recv=None, recv_expr=None):
     kw_exprs = kw_exprs or {}
     names = [p[0] for p in c.params]
@@ -90,6 +97,10 @@ def apply_contract(eng, st, c, args, kw, node, arg_exprs=(), kw_exprs=None, recv
     where = f"{c.short}@{node.lineno}"
     for i, r in enumerate(c.requires):
         eng.oblige(st, f"pre[{i}]@{where}", r(ctx), node.lineno, kind="pre")
+    if c.qualname == eng.c.qualname and getattr(c, "rec_variant", None) is not None and st.old:
+        # recursive call: the declared measure, evaluated on the arguments of the call, is smaller than at entry and bounded below
+        m_call, m_entry = c.rec_variant(ctx), c.rec_variant(Ctx(eng, _HeapState(st, st.old["heap"]), dict(st.old["env"])))
+        eng.oblige(st, f"dec.recursion@{node.lineno}", z3.And(m_call < m_entry, m_call >= 0), node.lineno, kind="dec")
     # exceptional outcomes
     for exc, spec in c.may_raise.items():
         fs = st.clone()
